@@ -379,6 +379,12 @@ public:
     std::vector<Fact> facts;
     FnVisitor V(C, K, facts, FD);
     V.TraverseStmt(const_cast<Stmt*>(Body));
+    if (auto* MD0 = dyn_cast<CXXMethodDecl>(FD)) {
+      if (!MD0->getParent()->isLambda())
+        for (auto* FLD : MD0->getParent()->fields())
+          if (FLD->hasInClassInitializer() && FLD->getInClassInitializer())
+            facts.push_back({"field", FLD->getNameAsString(), K.ex(FLD->getInClassInitializer()), K.ty(FLD->getType()), nullptr});
+    }
     if (auto* CD = dyn_cast<CXXConstructorDecl>(FD))
       for (auto* I : CD->inits()) if (I->isWritten() && I->getInit())
         facts.push_back({"ctorinit", I->isAnyMemberInitializer() ? I->getAnyMember()->getNameAsString() : "<base>", K.ex(I->getInit()), "", nullptr});
@@ -436,7 +442,25 @@ public:
     if (!FD->doesThisDeclarationHaveABody()) return true;
     if (!gInst && FD->isTemplateInstantiation()) return true;
     if (FD->isImplicit()) return true;
-    if (auto* MD = dyn_cast<CXXMethodDecl>(FD)) if (MD->getParent()->isLambda()) return true;  // handled by VisitLambdaExpr
+    if (auto* MD = dyn_cast<CXXMethodDecl>(FD)) if (MD->getParent()->isLambda()) {
+      // non-generic lambdas are handled by VisitLambdaExpr; instantiated call operators of GENERIC lambdas ([&](auto x){..}) are emitted here
+      if (gInst && FD->isTemplateInstantiation() && FD->getBody()) {
+        const CXXRecordDecl* LC = MD->getParent();
+        std::string owner;
+        const DeclContext* DC = LC->getDeclContext();
+        while (DC && !isa<FunctionDecl>(DC) && !isa<NamespaceDecl>(DC) && !isa<CXXRecordDecl>(DC)) DC = DC->getParent();
+        if (auto* ND = dyn_cast_or_null<NamedDecl>(DC)) owner = ND->getQualifiedNameAsString();
+        std::string psig;
+        const DeclContext* P = LC->getDeclContext();
+        while (P && !(isa<FunctionDecl>(P) && !(isa<CXXMethodDecl>(P) && cast<CXXMethodDecl>(P)->getParent()->isLambda()))) P = P->getParent();
+        if (auto* PF = dyn_cast_or_null<FunctionDecl>(P)) { Canon K0(C, PF); llvm::raw_string_ostream os(psig); PF->getNameForDiagnostic(os, K0.PP, true); os.flush(); }
+        unsigned ln = lineOf(LC->getLocation());
+        std::string qn = owner + "::(lambda@" + std::to_string(ln) + ")";
+        std::string extra = ",\"lambda\":true,\"generic_inst\":true,\"lambda_var\":\"\",\"parent_sig\":\"" + jesc(psig) + "\"";
+        emit(FD, FD->getBody(), qn, extra);
+      }
+      return true;
+    }
     emit(FD, FD->getBody(), "", "");
     return true;
   }
@@ -503,6 +527,15 @@ public:
       }
     }
     emit(MD, MD->getBody(), qn, extra);
+    // generic lambda ([&](auto x){..}): its instantiated call operators are not reached by the AST traversal; emit them here
+    if (gInst) {
+      if (auto* FT = L->getLambdaClass()->getDependentLambdaCallOperator()) {
+        for (auto* Spec : FT->specializations()) {
+          if (Spec->getBody() && !Spec->isDependentContext())
+            emit(Spec, Spec->getBody(), qn, extra + ",\"generic_inst\":true");
+        }
+      }
+    }
     return true;
   }
 };
